@@ -37,10 +37,28 @@ pub struct Params {
     pub opposite_pairs: bool,
     pub max_steps: u64,
     pub data_pct: u32,
+    pub group_pct: u32,
 }
+
+/// deeper bounds for the thorough tier (set once from the command line)
+pub static THOROUGH: std::sync::atomic::AtomicBool = std::sync::atomic::AtomicBool::new(false);
 
 impl Params {
     pub fn base() -> Params {
+        let mut p = Params::base_quick();
+        if THOROUGH.load(std::sync::atomic::Ordering::Relaxed) {
+            p.leaves = (2, 6);
+            p.target_elems = (1, 5);
+            p.targets = (2, 5);
+            p.acqs = (1, 4);
+            p.max_depth = 3;
+            p.body_ops = (0, 4);
+            p.max_units = 3;
+        }
+        p
+    }
+
+    pub fn base_quick() -> Params {
         Params {
             leaves: (2, 5),
             leaf_kinds: LeafKind::ALL.to_vec(),
@@ -71,6 +89,7 @@ impl Params {
             opposite_pairs: true,
             max_steps: 4000,
             data_pct: 30,
+            group_pct: 30,
         }
     }
 }
@@ -116,15 +135,22 @@ impl<'p> Gen<'p> {
         let leaves: Vec<LeafKind> = (0..n).map(|_| *self.rng.pick(&kinds)).collect();
         // owned units over disjoint leaf subsets
         let mut units: Vec<UnitSpec> = Vec::new();
+        let mut borrowed: Vec<usize> = Vec::new();
         let mut free: Vec<usize> = (0..n).collect();
         self.rng.shuffle(&mut free);
         while units.len() < self.p.max_units && free.len() >= 2 && self.rng.chance(self.p.unit_pct, 100) {
             let k = self.rng.range(0, free.len().min(3));
-            let ls: Vec<usize> = free.drain(..k).collect();
+            let mut ls: Vec<usize> = free.drain(..k).collect();
             let cont = self.pick_cont(ls.len());
-            units.push(UnitSpec { cont, leaves: ls });
+            // by reference: the leaves keep arena slots of their own, any listing order
+            let by_ref = !ls.is_empty() && self.rng.chance(40, 100);
+            if by_ref {
+                self.rng.shuffle(&mut ls);
+                borrowed.extend(ls.iter().copied());
+            }
+            units.push(UnitSpec { cont, leaves: ls, by_ref });
         }
-        let mut slots: Vec<Slot> = free.iter().map(|l| Slot::Leaf(*l)).collect();
+        let mut slots: Vec<Slot> = free.iter().chain(borrowed.iter()).map(|l| Slot::Leaf(*l)).collect();
         for u in 0..units.len() {
             slots.push(Slot::Unit(u));
         }
@@ -136,7 +162,7 @@ impl<'p> Gen<'p> {
             let mut ls: Vec<usize> = free.iter().copied().take(k).collect();
             self.rng.shuffle(&mut ls);
             let cont = self.pick_cont(ls.len());
-            datas.push(UnitSpec { cont, leaves: ls });
+            datas.push(UnitSpec { cont, leaves: ls, by_ref: true });
         }
         WorldSpec { leaves, units, slots, targets: Vec::new(), datas, gates: 0, tags: 0 }
     }
@@ -152,7 +178,7 @@ impl<'p> Gen<'p> {
 
     pub fn elems_of(w: &WorldSpec) -> Vec<Elem> {
         let mut v = Vec::new();
-        let borrowed: Vec<usize> = w.datas.iter().flat_map(|d| d.leaves.iter().copied()).collect();
+        let borrowed: Vec<usize> = w.datas.iter().chain(w.units.iter().filter(|u| u.by_ref)).flat_map(|d| d.leaves.iter().copied()).collect();
         for s in &w.slots {
             match s {
                 Slot::Leaf(l) if borrowed.contains(l) => {}
@@ -200,7 +226,15 @@ impl<'p> Gen<'p> {
                         continue;
                     }
                 }
-                members.push(self.target_over(w, &sub, depth + 1, false));
+                if self.rng.chance(self.p.group_pct, 100) {
+                    // a bare container as a member: (A, Vec<B>), [Vec<_>; 2], ...
+                    let mut ms: Vec<TSpec> = sub.iter().map(Self::elem_spec).collect();
+                    self.rng.shuffle(&mut ms);
+                    let cont = self.pick_cont(ms.len());
+                    members.push(TSpec::Group { cont, members: ms });
+                } else {
+                    members.push(self.target_over(w, &sub, depth + 1, false));
+                }
             } else {
                 members.push(Self::elem_spec(&es[i]));
                 i += 1;
@@ -335,7 +369,9 @@ impl<'p> Gen<'p> {
             strategy,
             sched_seed: self.rng.next(),
             max_steps: self.p.max_steps,
-            fair_after: self.p.max_steps / 2,
+            // bounded liveness: from this step on the schedule is fair run-to-block with every
+            // fault off; some runs switch early so that the switch lands inside contention
+            fair_after: *self.rng.pick(&[30, 120, self.p.max_steps / 2, self.p.max_steps / 2]),
             faults: FaultPlan { oneshots: vec![], evil: vec![], try_refuse_pct: refuse },
             replay: None,
             record_log: false,
@@ -553,7 +589,11 @@ pub fn gen_c07(seed: u64) -> Scenario {
                 let kind = *g.rng.pick(&[CollKind::Boxed, CollKind::Ref, CollKind::Retry]);
                 let cont = g.pick_cont(sub.len());
                 let poison = kind != CollKind::Ref && g.rng.chance(1, 4);
-                members.push(TSpec::Coll { kind, cont, members: sub, poison });
+                if g.rng.chance(3, 10) {
+                    members.push(TSpec::Group { cont, members: sub });
+                } else {
+                    members.push(TSpec::Coll { kind, cont, members: sub, poison });
+                }
             } else if c < 30 && ti > 0 {
                 // reference an earlier shared target (referenced twice => duplicate)
                 members.push(TSpec::Shared(g.rng.below(ti)));
@@ -778,6 +818,10 @@ pub fn gen_c12(seed: u64) -> Scenario {
         let mut a = g.acq(&w, t);
         a.rebuild = false;
         main_steps.push(Step::Acquire(a));
+        if g.rng.chance(15, 100) {
+            // non-acquiring operations use raw try operations too (Debug of a lock)
+            main_steps.push(Step::NonAcq(NonAcqOp::Debug, t));
+        }
     }
     let mut threads = vec![main_steps];
     let nh = g.rng.range(0, 2);
